@@ -73,12 +73,12 @@ PROPS = {
                      "unlimited dimensions of a chunked element never grow at this level (info->length is fixed at creation; HMCPwrite refuses writes past it)"],
     ),
     "C09": dict(
-        lean_props=["H4.Props.C09", "H4.Props.C09Region"],
+        lean_props=["H4.Props.C09", "H4.Props.C09Region", "H4.Props.C09Fn"],
         engines=[
             E("il", "e_il.c", model="il", quick=dict(cases=400), thorough=dict(cases=5000, seeds=4)),
             E("gr", "e_gr.c", model="gr", quick=dict(cases=600, chunk=40), thorough=dict(cases=8000, seeds=4, chunk=100)),
         ],
-        trusted_base=["GRIil_convert pointer offsets assumed < 2^31 (int32 casts of the line/pixel increments not modelled)",
+        trusted_base=["GRIil_convert: images below 2^31 bytes; the (int32) casts of the pixel / line increments are value preserving under hypothesis Fits of H4.Props.C09Fn (the translator treats a conversion to int32 as the identity)",
                       "region part: the raster data element is a byte array with Hseek/Hwrite/Hread (C01); compression coders, the HBconvert buffer and the "
                       "chunk layer (C04/C05) are not modelled - a compressed or chunked image is the same logical element; checked on the implementation "
                       "by the shadow-array oracle. RIG/Vgroup metadata encoding (GRIupdatemeta/GRIupdateRIG/GRIupdateRI) is modelled only by what survives reopen",
@@ -100,7 +100,7 @@ PROPS = {
                      "field names are not the reserved symbols PX..NZ; seeks stay within the records written"],
     ),
     "C08": dict(
-        lean_props=["H4.Props.C08", "H4.Props.C08Fn"],
+        lean_props=["H4.Props.C08", "H4.Props.C08Fn", "H4.Props.C08Fn2"],
         engines=[
             E("vg", "e_vg.c", model="vg", cflags=["-DFIXED3"], quick=dict(cases=300, chunk=25), thorough=dict(cases=4000, seeds=4, chunk=50)),
         ],
